@@ -35,6 +35,13 @@ NOTES = {  # seed -> (detected_by, note) overriding / complementing the logged r
  'C31-2': ('C31 (verdict, multi-plan runs)', 'missed at first (one plan per case); caught after multi-plan runs were added: three functions, every pass/fail assignment and registration order, run together with `*`, each plan must be reported on its own merits'),
  'C02-r2-2': ('C02 (declared-type-returned)', 'missed at first: the change introduces a TryLock, and the scheduler had no scheduling point while a lock is held just before its release (a reduction that is only sound for blocking locks), so a TryLock could never fail; caught after mkoverlay counts TryLock calls and sched.sh then builds the shim with a pre-unlock scheduling point (tag vtrylock)'),
  'C11-r2-1': ('C11 (reads)', 'missed at first: local values {1,2} and global values {3,4} never coincided, and the change only drops a local assignment whose value equals the visible global; caught after the leaf $GLOBAL.x=1 was added (witness `gx=1 x=1 gux`)'),
+ 'C13-r2-2': ('NOT DETECTED', 'FloatToString formats into a package-level scratch buffer: wrong only when two goroutines convert at the same instant. No interleaving of scheduling points reaches it (there is no synchronisation operation inside the function, so the cooperative scheduler never switches there) and the race detector is blind to it as well: the writes happen inside internal/strconv, which go1.26 does not instrument because the runtime depends on it (a plain two-goroutine Go program doing the same is not reported either). C32 gained pairs of stateless functions, which do catch a hoisted buffer that murex code itself writes'),
+ 'C25-r2-2': ('C25 (config-get)', 'missed at first: the breadth-first search merges histories whose scopes READ the same values, and the change adds a hidden per-call copy that reads like the shared value until the shared value moves on, so the only history that could expose it was pruned as a duplicate; caught after every history of <= 5 writes/calls/returns is also run without any state merging'),
+ 'C29-r2-1': ('C29 (reload)', 'missed at first: every long block was plain text, whose encoding in the file is as long as the text; caught after a 70 KiB block of `<&>` and line feeds (about 350 KiB once encoded) joined the block alphabet'),
+ 'C31-r2-2': ('C31 (verdict / test-run-exit)', 'missed at first: Pre/PostBlock were not varied; caught after the dimensions PreBlock {none, false} and PostBlock {none, true, false} were added'),
+ 'C33-r2-2': ('C33 (file-bytes)', 'missed at first: no file was appended to while another append to it was already open; caught after the nested appends `function f { P >> file; Q }; f >> file` were added'),
+ 'C32-r2-1': ('C32 (race report ParseFlags vs Parameters readers)', 'missed at first: no program ran `args` next to a stage that expands the parameters; caught after the program params-shared-by-stages and, independently, by the new object-level part (every pair of operations of every shared table)'),
+ 'C32-r2-2': ('C32 (race report Variables.Unset vs set)', 'missed at first: no program unset a variable while another job assigned one; caught by the new object-level part (every pair of operations of every shared table: `Set || Unset` on one table)'),
  'C26-r2-1': ('C26 (pipe-closed-once)', 'missed at first (the registry-level model cannot see a pipe being closed twice); caught after a counted pipe type and the clause "the registry closes a pipe object at most once" were added'),
  'C03-r2-1': ('C03 (sequential-meaning)', 'missed at first: no program used the method form of if, and the differential oracle alone does not see a change that makes every explored schedule wrong in the same way; caught after the program and literal expectations were added'),
  'C03-r2-2': ('C03 (sequential-meaning)', 'missed at first: no program had a downstream stage that ignores its stdin followed by a statement writing to the same stream; caught after the program and its literal expectation were added'),
@@ -53,7 +60,7 @@ for m in re.finditer(r'SEED(2?) (C\d\d)-(\d) check (C\d\d) rc=(\d+) :: (.*?) :: 
     k = key(m.group(1), m.group(2), m.group(3))
     seeds.setdefault(k, {'verify': None, 'checks': []})['checks'].append({'check': m.group(4), 'rc': int(m.group(5)), 'first': m.group(6).strip(), 'summary': m.group(7).strip()})
 # earlier manual confirmations
-MANUAL_OK = {'C21-2', 'C19-2', 'C01-r2-1', 'C01-r2-2', 'C28-r2-2', 'C32-r2-1', 'C32-r2-2'}
+MANUAL_OK = {'C21-2', 'C19-2', 'C01-r2-1', 'C01-r2-2', 'C28-r2-2', 'C32-r2-2', 'C13-r2-1', 'C13-r2-2', 'C24-r2-1'}
 for k in ['C01-1','C01-2','C03-1','C03-2','C05-1','C05-2','C26-1','C26-2','C28-1','C28-2']:
     seeds.setdefault(k, {'verify': {"applies":True,"builds":True,"existing_tests_pass":True,"demo_fails_with_change":True,"demo_passes_without_change":True}, 'checks': []})
 rows = []
@@ -67,7 +74,7 @@ for k in sorted(seeds):
         if os.path.isdir(dst): rows.append((k, json.load(open(dst+'/meta.json')).get('detected_by','?'))); 
         continue
     if k in MANUAL_OK and v:
-        v.update({'demo_fails_with_change': True, 'demo_passes_without_change': True, 'demo_confirmed': 'by hand'})
+        v.update({'applies': True, 'demo_fails_with_change': True, 'demo_passes_without_change': True, 'demo_confirmed': 'by hand'})
     ok = v and all(v.get(x) for x in ('applies','builds','existing_tests_pass','demo_fails_with_change','demo_passes_without_change'))
     if not ok:
         rows.append((k, f'NOT KEPT (confirmation incomplete: {v})')); continue
